@@ -55,6 +55,30 @@ func RawCidOf(v val.V) string {
 	return val.MakeCidV1(lk.CodecRaw, 0x12, d[:])
 }
 
+// IdCidOf is the block carried inside its own link: a dag-cbor CID whose multihash is the identity "hash" of the
+// block's bytes. A store may hold a block under such a link like under any other.
+func IdCidOf(v val.V) string {
+	b, err := refcbor.Encode(v)
+	if err != nil {
+		panic(err)
+	}
+	return val.MakeCidV1(lk.CodecDagCbor, 0x00, b)
+}
+
+// IsIdLink reports whether the binary CID is of the form IdCidOf produces.
+func IsIdLink(l string) bool {
+	return len(l) >= 3 && l[0] == 0x01 && l[1] == byte(lk.CodecDagCbor) && l[2] == 0x00
+}
+
+// Relink is the link a changed block gets when it is stored again in place of the block old led to: built from the
+// old link's prototype, so an inlined block stays inlined (the identity multihash is never truncated).
+func Relink(old string, nb val.V) string {
+	if IsIdLink(old) {
+		return IdCidOf(nb)
+	}
+	return CidOf(nb)
+}
+
 // Store maps CID bytes to block values (every block also under its raw-codec alias, as bytes).
 func (g Graph) Store() map[string]val.V {
 	m := map[string]val.V{}
@@ -63,6 +87,7 @@ func (g Graph) Store() map[string]val.V {
 		m[CidOf(b)] = b.SortKeys(val.LessLenFirst)
 		enc, _ := refcbor.Encode(b)
 		m[RawCidOf(b)] = val.MkBytes(enc)
+		m[IdCidOf(b)] = m[CidOf(b)]
 	}
 	return m
 }
@@ -75,6 +100,8 @@ type Opts struct {
 	LinkHeavy bool // many links, many of them repeated
 	// RawAliases: some links address a block's bytes under the raw codec instead (same multihash, other CID)
 	RawAliases bool
+	// IdAliases: some links to small blocks carry the block themselves (identity multihash)
+	IdAliases bool
 }
 
 func DefaultOpts() Opts {
@@ -113,6 +140,9 @@ func Draw(t *rapid.T, o Opts) Graph {
 			pool = append(pool, CidOf(v))
 			if o.RawAliases && rapid.IntRange(0, 3).Draw(t, "rawalias") == 0 {
 				pool = append(pool, RawCidOf(v))
+			}
+			if enc, _ := refcbor.Encode(v); o.IdAliases && len(enc) <= 48 && rapid.IntRange(0, 2).Draw(t, "idalias") == 0 {
+				pool = append(pool, IdCidOf(v))
 			}
 		}
 	}
@@ -193,6 +223,7 @@ func Realise(g Graph, np datamodel.NodePrototype) (*Real, error) {
 		}
 		// the same bytes under the raw-codec address
 		mem.Bag[RawCidOf(b)] = mem.Bag[l.Binary()]
+		mem.Bag[IdCidOf(b)] = mem.Bag[l.Binary()]
 		kinds[l.Binary()] = b.K
 	}
 	if np == nil && g.RootImpl != "" {
